@@ -6,7 +6,8 @@
 //! trusted: R15 (statement slicing): create_recv_pending_htlc_info is ~150 lines over onion payload types; the unit extracts, on every run, its three consecutive acceptance tests (final CLTV vs onion, PaymentClaimBuffer, amount) with their conditions verbatim and checks them as one function of the variables they read; the rest of the function is dropped and not claimed
 //! trusted: assume_specification for Result::or_else (std definition)
 //! trusted: env: PaymentConstraints {2 fields} skeleton; BlindedHopFeatures opaque with external_body empty()/requires_unknown_bits_from() (unconstrained)
-//! trusted: env: struct UpdateAddHTLC{amount_msat,cltv_expiry}, ChannelConfig{3 fields}, PaymentRelay{3 fields} are field skeletons of the real structs; enum LocalHTLCFailureReason restricted to the 5 variants used; FundedChannel/ChannelContext self skeleton (R5) whose config()/prev_config() accessors are external_body returning the two stored configs
+//! trusted: env: struct UpdateAddHTLC{amount_msat,cltv_expiry}, ChannelConfig{3 fields}, PaymentRelay{3 fields} are field skeletons of the real structs; enum LocalHTLCFailureReason restricted to the 6 variants used; FundedChannel/ChannelContext self skeleton (R5) whose config()/prev_config() accessors are external_body returning the two stored configs
+//! trusted: R15 (deep slice): can_forward_htlc_to_outgoing_channel: the unit extracts its last two statements (minimum-amount test and the call of htlc_satisfies_config, which is checked against that function's proved contract) verbatim; the privacy / liveness pre-checks before them (all early Err returns) are dropped and not claimed; NextPacketDetails skeleton
 //! trusted: R15 (deep slice): do_chain_event sweeps pending_intercepted_htlcs with a retain closure under a mutex; the unit extracts the closure's keep/fail-back test verbatim as a function of (htlc, height); the pushed failure and the log are dropped; PendingAddHTLCInfo/PendingHTLCInfo skeletons {outgoing_cltv_value}
 //! trusted: R15 (deep slice): do_best_block_updated times out AddHTLC entries of the holding cell in a retain closure; the unit extracts the limit and the keep/drop test verbatim as a function of (cltv_expiry, height)
 //! assume: intercepted forwards have outgoing_cltv_value >= HTLC_FAIL_BACK_BUFFER (they passed check_incoming_htlc_cltv); otherwise the u32 subtraction in the sweep underflows
@@ -22,14 +23,15 @@ pub assume_specification<T, E, F, O: FnOnce(E) -> Result<T, F>>[core::result::Re
 //@const lightning/src/chain/channelmonitor.rs MAX_BLOCKS_FOR_CONF CLTV_CLAIM_BUFFER LATENCY_GRACE_PERIOD_BLOCKS ANTI_REORG_DELAY HTLC_FAIL_BACK_BUFFER
 //@const lightning/src/ln/channelmanager.rs MIN_CLTV_EXPIRY_DELTA CLTV_FAR_FAR_AWAY MIN_FINAL_CLTV_EXPIRY_DELTA
 
-pub enum LocalHTLCFailureReason { FeeInsufficient, IncorrectCLTVExpiry, CLTVExpiryTooSoon, CLTVExpiryTooFar, OutgoingCLTVTooSoon }
+pub enum LocalHTLCFailureReason { FeeInsufficient, IncorrectCLTVExpiry, CLTVExpiryTooSoon, CLTVExpiryTooFar, OutgoingCLTVTooSoon, AmountBelowMinimum }
 pub struct UpdateAddHTLC { pub amount_msat: u64, pub cltv_expiry: u32 }
 #[derive(Clone, Copy)]
 pub struct ChannelConfig { pub forwarding_fee_proportional_millionths: u32, pub forwarding_fee_base_msat: u32, pub cltv_expiry_delta: u16 }
-pub struct ChannelContext { pub cfg: ChannelConfig, pub prev: Option<ChannelConfig> }
+pub struct ChannelContext { pub cfg: ChannelConfig, pub prev: Option<ChannelConfig>, pub counterparty_htlc_minimum_msat: u64 }
 impl ChannelContext {
     #[verifier::external_body] pub fn config(&self) -> (r: ChannelConfig) ensures r == self.cfg { unimplemented!() }
     #[verifier::external_body] pub fn prev_config(&self) -> (r: Option<ChannelConfig>) ensures r == self.prev { unimplemented!() }
+    #[verifier::external_body] pub fn get_counterparty_htlc_minimum_msat(&self) -> (r: u64) ensures r == self.counterparty_htlc_minimum_msat { unimplemented!() }
 }
 pub struct FundedChannel { pub context: ChannelContext }
 
@@ -87,6 +89,34 @@ impl FundedChannel {
     Ok(())
 //@end
 }
+
+// ---- the caller that admits a forward to a concrete outgoing channel (R15 slice: the last two statements of can_forward_htlc_to_outgoing_channel) ----
+pub struct NextPacketDetails { pub outgoing_amt_msat: u64, pub outgoing_cltv_value: u32 }
+//@extract lightning/src/ln/channelmanager.rs :: impl ChannelManager :: fn can_forward_htlc_to_outgoing_channel
+//@strip msgs
+//@slice R15
+    if !will_intercept && !chan.context.is_live() { $live:any } $tail:any }
+//@with
+    fn can_forward_tail(chan: &mut FundedChannel, msg: &UpdateAddHTLC, next_packet: &NextPacketDetails) -> Result<(), LocalHTLCFailureReason> {
+        $tail
+    }
+//@ret r
+//@ensures P C02 the-channel-manager-admits-a-forward-only-with-the-onions-own-amount-and-expiry-checked-against-the-channels-policy-and-minimum
+    r is Ok ==> next_packet.outgoing_amt_msat >= old(chan).context.counterparty_htlc_minimum_msat
+        && ((next_packet.outgoing_amt_msat as int + fwd_fee(next_packet.outgoing_amt_msat as int, &old(chan).context.cfg) <= msg.amount_msat
+                  && next_packet.outgoing_cltv_value as int + old(chan).context.cfg.cltv_expiry_delta as int <= msg.cltv_expiry)
+              || (old(chan).context.prev is Some
+                  && next_packet.outgoing_amt_msat as int + fwd_fee(next_packet.outgoing_amt_msat as int, &old(chan).context.prev->Some_0) <= msg.amount_msat
+                  && next_packet.outgoing_cltv_value as int + old(chan).context.prev->Some_0.cltv_expiry_delta as int <= msg.cltv_expiry)),
+//@mutant policy_checked_against_the_incoming_amount
+    chan.htlc_satisfies_config(msg, next_packet.outgoing_amt_msat, next_packet.outgoing_cltv_value)
+//@with
+    chan.htlc_satisfies_config(msg, msg.amount_msat, next_packet.outgoing_cltv_value)
+//@mutant below_minimum_forward_admitted
+    next_packet.outgoing_amt_msat < chan.context.get_counterparty_htlc_minimum_msat()
+//@with
+    next_packet.outgoing_amt_msat + 1 < chan.context.get_counterparty_htlc_minimum_msat()
+//@end
 
 //@extract lightning/src/ln/onion_payment.rs :: fn check_incoming_htlc_cltv
 //@ret r
